@@ -1,6 +1,9 @@
 package main
 
 import (
+	"runtime/debug"
+	"encoding/binary"
+	"bytes"
 	"context"
 	"sync"
 	"encoding/json"
@@ -877,8 +880,44 @@ func srvAsyncWrite(o *common.Out, id string, pool bool, style string) {
 			fail("response-count", fmt.Sprintf("request %d (seq %d) was answered %d times", rid, 11+rid, n))
 		}
 	}
+	// every frame buffer went back to its pool once: the next encoders of that size class each get a buffer of their own
+	if bad := framePoolProbe(); bad != "" {
+		fail("pooled-object-shared", bad)
+	}
 	o.ImplOnly(id, abstract, true)
 	o.Count("async-write-schedule")
+}
+
+// framePoolProbe: encode 8 small messages, hold all 8 frames: distinct buffers, each still its own bytes (one P, no GC
+// in between: a buffer that was put twice comes out twice in a row)
+func framePoolProbe() string {
+	prevGC := debug.SetGCPercent(-1)
+	defer debug.SetGCPercent(prevGC)
+	var held []*[]byte
+	bad := ""
+	for i := 0; i < 8; i++ {
+		m := protocol.NewMessage()
+		m.SetSeq(uint64(7000 + i))
+		m.ServicePath, m.ServiceMethod = "Probe", "p"
+		m.Payload = bytes.Repeat([]byte{byte('a' + i)}, 60)
+		held = append(held, m.EncodeSlicePointer())
+	}
+	for i, d := range held {
+		for j := 0; j < i; j++ {
+			if &(*held[j])[0] == &(*d)[0] && bad == "" {
+				bad = fmt.Sprintf("two encoders (frames %d and %d), both still holding their frame, were handed the same buffer", j, i)
+			}
+		}
+		if f, err := refcodec.Parse(*d); err != nil || binary.BigEndian.Uint64(f.Header[4:]) != uint64(7000+i) || !bytes.Equal(f.Raw, bytes.Repeat([]byte{byte('a' + i)}, 60)) {
+			if bad == "" {
+				bad = fmt.Sprintf("frame %d was overwritten while its encoder still held it", i)
+			}
+		}
+	}
+	for _, d := range held {
+		protocol.PutData(d)
+	}
+	return bad
 }
 
 // queuePool: a worker pool (server.WithCustomPool) that only queues; the harness runs the queued tasks when and in
@@ -1120,7 +1159,7 @@ func runSrv(prop string, r *common.Rand, tier string, o *common.Out, replay stri
 		}
 		runtime.GOMAXPROCS(prev)
 	}
-	if prop == "C04" {
+	if prop == "C04" || prop == "C20" {
 		k := 0
 		for _, pool := range []bool{false, true} {
 			for _, style := range []string{"method", "pooled", "func", "router"} {
